@@ -6,6 +6,10 @@
 //	exit <id> [err]                          (err: Exit(WithError(..)))
 //	entry <id> <res> - [type=<t>]            (no WithBatchCount option: default batch 1)
 //	manyres <n>                              (enter+exit n fresh rule-less resources "#<k>")
+//	sload … / sloadres …                     (= load / loadres through one reused caller-owned slice whose elements are overwritten after the call)
+//	poke <res> <idx> <thr>                   (edit Threshold of a loaded, valid rule object in place; thr != 0)
+//	rules <res> => [idx:thr,…]   rules => [res:idx:thr,…]   (GetRulesOfResource / GetRules, the latter sorted)
+//	entry … [type=<t>] [in]                  (in: WithTrafficType(Inbound))
 //	loadres <res> <thr>* / clearres <res>    (isolation.LoadRulesOfResource / ClearRulesOfResource, also on rule-less resources)
 //	clock <ms>                               (virtual clock := case start - 10000 + ms, 0 <= ms <= 20000; may step backwards)
 //	trace <id>                               (api.TraceError on the entry, live or exited)
@@ -13,7 +17,7 @@
 //	conc <res>                               => gauge
 //	sched <id0> <res> <b0,b1,…> <i0,i1,…|->  => [r0,…] max=<g>
 //	par <id0> <k> <res> <batch>              = sched id0 res b,…,b 0,…,k-1,0,…,k-1
-//	soak <res> <goroutines> <rounds> <batch> [x2] => gauge0=ok max<=<bound> min=ok rej=ok total=ok
+//	soak <res> <goroutines> <rounds> <batch> [x2] => gauge0=ok max<=<bound> min=ok rej=ok cold=ok total=ok
 //	                                         (x2: every admitted entry is exited by two goroutines at once)
 //
 // soak: real goroutines (GOMAXPROCS = NumCPU for the op, no hooks) loop Entry/Exit on the resource.  Only verdicts
@@ -21,6 +25,7 @@
 // min = no worker read less than g0+1 right after its own admission (its own entry is in flight);
 // max = the largest gauge a worker read right after its own admission is within max(g0, N+z)+(goroutines-1)
 // (N = tightest threshold; g0+goroutines without rule) - the bound is printed and compared with the model's;
+// cold = 100 never-seen resources entered by all goroutines at once: each gauge reads exactly `goroutines` while all hold, 0 after;
 // rej = nobody was rejected when g0+(goroutines-1)+batch <= N; total = admitted+blocked = attempted.
 //
 // sched: thread i is a goroutine calling api.Entry(res, WithBatchCount(b_i)); the yield hook
@@ -35,6 +40,7 @@ import (
 	"fmt"
 	"runtime"
 	"runtime/debug"
+	"sort"
 	"strconv"
 	"strings"
 	"sync"
@@ -133,7 +139,8 @@ type Interp struct {
 	clk   *vh.Clock
 	now   uint64
 	ents  map[uint64]*handle
-	rules []*isolation.Rule
+	held    map[string][]*isolation.Rule // the valid rule objects the module holds, per resource (for poke)
+	scratch [2][]*isolation.Rule         // the caller-owned slices reused by sload [0] / sloadres [1]
 	fresh int
 	cur   *thread // the scheduled worker currently running (nil: the interpreter itself)
 }
@@ -171,7 +178,7 @@ func (it *Interp) Reset() {
 	}
 	it.ents = map[uint64]*handle{}
 	it.fresh = 0
-	it.rules = nil
+	it.held = map[string][]*isolation.Rule{}
 	_ = isolation.ClearRules()
 	_ = flow.ClearRules()
 	stat.ResetResourceNodeMap()
@@ -179,14 +186,29 @@ func (it *Interp) Reset() {
 	it.clk.SetMs(it.now)
 }
 
-// isolation_rules: the effective rules as the module reports them (only used by soak to print its bound)
-func isolation_rules() []*isolation.Rule {
-	rs := isolation.GetRules()
-	out := make([]*isolation.Rule, len(rs))
-	for i := range rs {
-		out[i] = &rs[i]
+// buf returns an empty slice for the rules of one load call: a fresh one, or (scratch) the one caller-owned slice that every
+// s-load reuses.
+// The slice of sloadres is a fixed array of 64 (never re-allocated, so it is the same backing array for the whole run; lists are
+// shorter); sload has a slice of its own (LoadRules regroups its argument into fresh slices and keeps nothing of it).
+func (it *Interp) buf(scratch bool, which, n int) []*isolation.Rule {
+	if !scratch {
+		return make([]*isolation.Rule, 0, n)
 	}
-	return out
+	if it.scratch[which] == nil || cap(it.scratch[which]) < n {
+		it.scratch[which] = make([]*isolation.Rule, 0, 64+n)
+	}
+	return it.scratch[which][:0]
+}
+
+// scribble overwrites every element of the caller-owned slice after the load call: the enforced rules must be those of the load.
+func (it *Interp) scribble(scratch bool, rules []*isolation.Rule) {
+	if !scratch {
+		return
+	}
+	all := rules[:cap(rules)]
+	for i := range all {
+		all[i] = &isolation.Rule{ID: "junk", Resource: "#junk", MetricType: isolation.Concurrency, Threshold: 1}
+	}
 }
 
 func u32(s string) uint32 {
@@ -231,8 +253,9 @@ func blockParts(b *base.BlockError) (string, string) {
 
 func (it *Interp) Step(t []string, op string) string {
 	switch t[0] {
-	case "load":
-		rules := make([]*isolation.Rule, 0, len(t)-1)
+	case "load", "sload":
+		// sload: the same call through ONE caller-owned slice reused by every s-load, whose elements are overwritten afterwards
+		rules := it.buf(t[0] == "sload", 0, len(t)-1)
 		for i, a := range t[1:] {
 			k := strings.IndexByte(a, ':')
 			if k <= 0 {
@@ -240,28 +263,78 @@ func (it *Interp) Step(t []string, op string) string {
 			}
 			rules = append(rules, &isolation.Rule{ID: strconv.Itoa(i), Resource: a[:k], MetricType: isolation.Concurrency, Threshold: u32(a[k+1:])})
 		}
-		if _, err := isolation.LoadRules(rules); err != nil {
-			return "err"
-		}
-		it.rules = rules
-		return ""
-	case "loadres", "clearres":
-		res := t[1]
-		var err error
-		if t[0] == "clearres" {
-			err = isolation.ClearRulesOfResource(res)
-		} else {
-			rules := make([]*isolation.Rule, 0, len(t)-2)
-			for i, a := range t[2:] {
-				rules = append(rules, &isolation.Rule{ID: strconv.Itoa(i), Resource: res, MetricType: isolation.Concurrency, Threshold: u32(a)})
-			}
-			_, err = isolation.LoadRulesOfResource(res, rules)
-		}
+		changed, err := isolation.LoadRules(rules)
 		if err != nil {
 			return "err"
 		}
-		it.rules = isolation_rules()
+		if changed { // otherwise the module keeps the objects it already has
+			it.held = map[string][]*isolation.Rule{}
+			for _, r := range rules {
+				if r.Threshold != 0 {
+					it.held[r.Resource] = append(it.held[r.Resource], r)
+				}
+			}
+		}
+		it.scribble(t[0] == "sload", rules)
 		return ""
+	case "loadres", "clearres", "sloadres":
+		res := t[1]
+		if t[0] == "clearres" {
+			if err := isolation.ClearRulesOfResource(res); err != nil {
+				return "err"
+			}
+			delete(it.held, res)
+			return ""
+		}
+		rules := it.buf(t[0] == "sloadres", 1, len(t)-2)
+		for i, a := range t[2:] {
+			rules = append(rules, &isolation.Rule{ID: strconv.Itoa(i), Resource: res, MetricType: isolation.Concurrency, Threshold: u32(a)})
+		}
+		changed, err := isolation.LoadRulesOfResource(res, rules)
+		if err != nil {
+			return "err"
+		}
+		if changed {
+			delete(it.held, res)
+			for _, r := range rules {
+				if r.Threshold != 0 {
+					it.held[res] = append(it.held[res], r)
+				}
+			}
+		}
+		it.scribble(t[0] == "sloadres", rules)
+		return ""
+	case "poke":
+		// the caller edits the threshold of a rule object it loaded earlier (only valid rules, only to non-zero values)
+		for _, r := range it.held[t[1]] {
+			if r.ID == t[2] {
+				r.Threshold = u32(t[3])
+			}
+		}
+		return ""
+	case "rules":
+		if len(t) > 1 {
+			rs := isolation.GetRulesOfResource(t[1])
+			out := make([]string, len(rs))
+			for i, r := range rs {
+				out[i] = fmt.Sprintf("%s:%d", r.ID, r.Threshold)
+			}
+			return vh.List(out)
+		}
+		rs := isolation.GetRules()
+		sort.SliceStable(rs, func(i, j int) bool {
+			if rs[i].Resource != rs[j].Resource {
+				return rs[i].Resource < rs[j].Resource
+			}
+			a, _ := strconv.Atoi(rs[i].ID)
+			b, _ := strconv.Atoi(rs[j].ID)
+			return a < b
+		})
+		out := make([]string, len(rs))
+		for i, r := range rs {
+			out[i] = fmt.Sprintf("%s:%s:%d", r.Resource, r.ID, r.Threshold)
+		}
+		return vh.List(out)
 	case "clock":
 		// offset from the case start (the case starts at offset 10000); may step backwards
 		it.clk.SetMs(it.now - 10_000 + vh.U(t[1]))
@@ -275,10 +348,14 @@ func (it *Interp) Step(t []string, op string) string {
 		if t[3] != "-" { // "-": no batch option at all (EntryOptions default: 1)
 			opts = append(opts, sentinel.WithBatchCount(u32(t[3])))
 		}
-		if len(t) > 4 {
-			rt, ok := resTypes[strings.TrimPrefix(t[4], "type=")]
-			if !ok || !strings.HasPrefix(t[4], "type=") {
-				panic("bad resource type " + t[4])
+		for _, o := range t[4:] {
+			if o == "in" {
+				opts = append(opts, sentinel.WithTrafficType(base.Inbound))
+				continue
+			}
+			rt, ok := resTypes[strings.TrimPrefix(o, "type=")]
+			if !ok || !strings.HasPrefix(o, "type=") {
+				panic("bad entry option " + o)
 			}
 			opts = append(opts, sentinel.WithResourceType(rt))
 		}
@@ -433,8 +510,8 @@ func (it *Interp) sched(id0 uint64, res string, bs, sch []string) string {
 func (it *Interp) soak(res string, gor, rounds int, batch uint32, x2 bool) string {
 	g0 := int64(it.gauge(res))
 	minN, has := int64(0), false
-	for _, r := range it.rules {
-		if r.Resource == res && r.Threshold != 0 && (!has || int64(r.Threshold) < minN) {
+	for _, r := range isolation.GetRulesOfResource(res) {
+		if !has || int64(r.Threshold) < minN {
 			minN, has = int64(r.Threshold), true
 		}
 	}
@@ -515,6 +592,7 @@ func (it *Interp) soak(res string, gor, rounds int, batch uint32, x2 bool) strin
 	}
 	close(start)
 	wg.Wait()
+	cold := it.coldStart(gor, 100)
 	runtime.GOMAXPROCS(prev)
 	verifhook.Sched = saved
 	out := make([]string, 0, 4)
@@ -538,10 +616,49 @@ func (it *Interp) soak(res string, gor, rounds int, batch uint32, x2 bool) strin
 	} else {
 		out = append(out, "rej=ok")
 	}
+	out = append(out, cold)
 	if admitted+blocked == int64(gor)*int64(rounds) {
 		out = append(out, "total=ok")
 	} else {
 		out = append(out, fmt.Sprintf("total=%d+%d!=%d", admitted, blocked, int64(gor)*int64(rounds)))
 	}
 	return strings.Join(out, " ")
+}
+
+// coldStart: `rounds` times, `gor` goroutines released together enter one never-seen rule-less resource, all hold their entry until
+// everybody is in, then all exit.  While all are held the gauge of that resource must be exactly gor (every first entry is counted on
+// the node the others see), afterwards 0.
+func (it *Interp) coldStart(gor, rounds int) string {
+	for j := 0; j < rounds; j++ {
+		it.fresh++
+		name := "#c" + strconv.Itoa(it.fresh)
+		start, release := make(chan struct{}), make(chan struct{})
+		var entered, done sync.WaitGroup
+		var blocked int64
+		for w := 0; w < gor; w++ {
+			entered.Add(1)
+			done.Add(1)
+			go func() {
+				defer done.Done()
+				<-start
+				e, b := sentinel.Entry(name)
+				entered.Done()
+				if b != nil {
+					atomic.AddInt64(&blocked, 1)
+					return
+				}
+				<-release
+				e.Exit()
+			}()
+		}
+		close(start)
+		entered.Wait()
+		held := int64(it.gauge(name))
+		close(release)
+		done.Wait()
+		if after := int64(it.gauge(name)); held != int64(gor) || after != 0 || blocked != 0 {
+			return fmt.Sprintf("cold=%d/%d,then%d,blocked%d", held, gor, after, blocked)
+		}
+	}
+	return "cold=ok"
 }
